@@ -51,8 +51,8 @@ func (n *Net) AddPeer(i int) host.Host {
 	if _, replacing := n.ids[i]; replacing {
 		for j, q := range n.ids {
 			if j != i {
-				n.MN.DisconnectPeers(pid, q)
 				n.MN.UnlinkPeers(pid, q) // links hold the old incarnation's network object
+				n.MN.DisconnectPeers(pid, q)
 			}
 		}
 	}
@@ -139,8 +139,11 @@ func (n *Net) Cut(a, b int) {
 		return
 	}
 	n.cut[pair(a, b)] = true
-	n.MN.DisconnectPeers(n.ids[a], n.ids[b])
+	// the link goes first: closing a connection yields to other goroutines, and a
+	// dial that ran between the two calls would leave a live connection across
+	// the partition, on a link whose latency nothing can change any more
 	n.MN.UnlinkPeers(n.ids[a], n.ids[b])
+	n.MN.DisconnectPeers(n.ids[a], n.ids[b])
 }
 
 // Partition cuts every pair across the two groups.
